@@ -21,6 +21,9 @@ CLAIMED.update({
     "C14": env("TLC enumerates the interleavings of two processes at the granularity of single metastore/KMS calls (exhaustive from cold, simulation from expired/revoked starts); each schedule is imposed on two real factories through a gate on the fake metastore/KMS; the monitor checks every returned record against the authoritative table (same key bytes, parent present), that no row is ever overwritten, and that a fresh factory decrypts it.", "5/C14"),
     "C20": env("The monitor tracks, per cache scope, when each key record was last fetched and requires zero external calls inside the revoke-check interval, a re-read after it, at most one KMS unwrap of a valid SK per factory per interval, and reads on every call when caching is off; TLC generates the tick placements around the interval boundary and the model carries ZeroCallsWhenFresh as an invariant.", "5/C20"),
 })
+CLAIMED["C19"] = dict(engine="server", technique="TLA+ model of the stream protocol (Server.tla); TLC-enumerated request sequences played on the real handler; recorded streams validated by TLC",
+    text="TLC enumerates every request sequence up to the bound (history in the state) from Server.tla with one-reply-per-request and no-service-before-session as invariants; each sequence is played on the real AppEncryption.Session/streamer/defaultHandler over an in-memory stream and the recorded stream is validated by TLC: response class allowed in that state, decrypted bytes equal the original, exactly one reply per request, handler returns without panic.",
+    note="in-memory stream instead of a network transport; bounded sequence length (5 quick / 6 thorough) plus random longer sequences on concurrent streams; SDK behaviour behind the handler is the in-memory metastore + static KMS", ref="5/C19, 4.6")
 PENDING = {}
 
 def main():
